@@ -275,7 +275,9 @@ class DomainAdapter(Adapter):
             # pair-major (rank, rank, n) table transposed, every second row of a longer array
             layouts = [('C', lambda a: a.copy()), ('F', np.asfortranarray), ('swapaxes', lambda a: a.copy().swapaxes(1, 2)),
                        ('table.T', lambda a: np.ascontiguousarray(a.T).T), ('strided', lambda a: np.repeat(a, 2, axis=0)[::2])]
-            for rank in (1, 2, 3, 4):
+            if n > 256:                 # long grids (thorough tier): two layouts, two ranks - the layout logic does not depend on n
+                layouts = [layouts[0], layouts[4]]
+            for rank in ((1, 2, 3, 4) if n <= 256 else (1, 3)):
               for lname, layout in layouts:
                   data = self.rng.standard_normal((n, rank, rank))
                   data = data + np.transpose(data, (0, 2, 1))
